@@ -81,7 +81,8 @@ class World(object):
         m = {'name': case['method'], 'args': [[f['n'], S.texpr(f['t'], f)] for f in case['args']],
              'ret': None if not rets else (rets[0] if len(rets) == 1 else rets), 'returns': lambda args: self.holder[0]}
         if headers:
-            m['out_header'] = [{'k': 'obj', 'name': 'RespHeader', 'fields': [['X-Count', {'k': 'prim', 'p': 'Integer'}], ['X-Tag', {'k': 'prim', 'p': 'Unicode'}]]}]
+            m['out_header'] = [{'k': 'obj', 'name': 'RespHeader', 'fields': [['X-Count', {'k': 'prim', 'p': 'Integer'}], ['X-Tag', {'k': 'prim', 'p': 'Unicode'}],
+                                                                                      ['Expires', {'k': 'prim', 'p': 'DateTime'}]]}]
             m['out_header_values'] = lambda: self.holder[1]
         svc = G.make_service(self.gen, [m], self.seen)
         self.inp = HttpRpc(validator=validator, hier_delim=cfg['delim'], strict_arrays=cfg.get('strict', False))
